@@ -52,7 +52,7 @@ type vwDNSWorld struct {
 }
 
 func vwNewDNSWorld(t testing.TB) *vwDNSWorld {
-	dir, err := os.MkdirTemp("", "verif_c11_")
+	dir, err := os.MkdirTemp(os.Getenv("VERIF_TMP"), "verif_c11_")
 	if err != nil {
 		t.Fatal(err)
 	}
